@@ -93,7 +93,7 @@ SLOTS = ("arg", "kw", "list", "init", "elem")
 
 
 def build(rng, g, depth):
-    G = gen.Gen(rng, g, layout=0.5, arrays=1.0, hostile_names=0.2)
+    G = gen.Gen(rng, g, layout=0.5, arrays=1.0, hostile_names=0.2, big=rng.random() < 0.08)
     lines = ["name " + G.ident(), "version 1.0"]
     for _ in range(rng.choice([0, 1, 2, 3, 4])):
         t = G.decl_scalar(vartype=rng.choice(["int", "float", "complex", "int", "float"]), depth=1)
@@ -101,6 +101,14 @@ def build(rng, g, depth):
             lines.append(t)
     for _ in range(rng.choice([0, 1, 1, 2])):
         t = G.decl_array()
+        if t:
+            lines.extend(t.split("\n"))
+    if G.arrays and rng.random() < 0.15:
+        # an array declared again (same name; same or another size) after it has been indexed
+        nm = rng.choice(list(G.arrays))
+        vt, rr, cc, hp = G.arrays[nm]
+        lines.append("G(%s[%d]) | 1" % (nm, rng.randrange(rr * cc)))
+        t = G.decl_array(vartype=vt, rows=rr if rng.random() < 0.7 else None, cols=cc if rng.random() < 0.7 else None, name=nm, param_p=0.0)
         if t:
             lines.extend(t.split("\n"))
     e = G.expr(depth, "ifc")
